@@ -48,6 +48,7 @@ func properties() []Property {
 		{ID: "C07", Assumptions: []string{aSummaries, aModels, aE2, "events/state of the wrapped application itself are identical because it is the same single call with the same arguments on the same context (the application's internals are a model)", "acknowledgement / timeout / send callbacks: the middleware type embeds the wrapped interfaces and declares no override, shown by the method-set check of H_C07_callbacks"},
 			Harnesses: []HarnessSpec{
 				{Name: "H_C07_packets", Profile: "bit", Quick: b("rcvKinds", 8, "denomKinds", 4, "memoKinds", 2, "amountKinds", 3, "intKinds", 1, "fees", 0, "priors", 1, "pauses", 0, "ptMax", 0, "garbage", 1, "feeRcpKinds", 1), Covers: []string{"not-for-orbiter"}},
+				{Name: "H_C07_channels", Profile: "bit", Covers: []string{"not-for-orbiter"}},
 				{Name: "H_C07_payloads", Profile: "bit", Quick: b("rcvKinds", 4, "denomKinds", 1, "memoKinds", 6, "amountKinds", 1, "intKinds", 2, "fees", 1, "priors", 1, "pauses", 1, "ptMax", 1, "garbage", 0, "feeRcpKinds", 1), Covers: []string{"not-for-orbiter"}},
 			}},
 		{ID: "C11", Assumptions: []string{aSummaries, aModels, aE1, "paired executions: the same drawn packet on two freshly wired modules whose states differ only in the coins already on the orbiter account (arbitrary amounts in the transferred denom and one other denom vs. none)", "bank send restrictions of other modules on the sweep are outside the claim"},
@@ -77,6 +78,13 @@ func properties() []Property {
 		{ID: "C12", Assumptions: []string{aSummaries, aModels, aE3, "one inductive step from arbitrary pre-existing statistics: up to preEntries amount entries and preEntries count entries whose keys coincide with the new transfer's keys or differ in one component (source, destination protocol, destination counterparty, denom)", "pre-state invariant (bound): totals < 10^70, amounts < 10^60, counts < 2^64-1 — the statistics overflow paths (deliberately swallowed by DispatchPayload) are outside the claim", "denomination change is exercised with a harness controller registered under ACTION_SWAP on the internal route"},
 			Harnesses: []HarnessSpec{
 				{Name: "H_C12_step", Profile: "bit", Quick: b("preEntries", 1), Thorough: b("preEntries", 2), Covers: []string{"pre-state-built", "transfer-refused", "transfer-succeeded"}},
+			}},
+		{ID: "C14", Assumptions: []string{aSummaries, aModels, "decoded payload shapes are built as Go values through the exported API (every pointer position nil or not, identifiers any int32, byte fields of any length up to the bound, integers and coins of any value; nil math.Int excluded because the Any round trip never yields one) and fed to the stages in the order the receive path calls them: Payload.Validate, the transfer hook, payload processing, and the dispatcher directly", "every instruction that can panic (nil dereference, index / slice bounds, slice-to-array conversion, division by zero, failed type assertion, nil map write, explicit panic) and every documented panic of a summarised library function (math.Int overflow, nil Int receiver, sdk.NewCoin / NewCoins on invalid input) is an obligation on every path", "panics inside the JSON / protobuf codecs and inside bech32 are outside the claim (summarised): e.g. \"fees_info\":[null] panics inside jsonpb before any orbiter code runs"},
+			Harnesses: []HarnessSpec{
+				{Name: "H_C14_action_shapes", Profile: "bit", Quick: b("actionShapes", 1, "fwdShapes", 0, "actions", 1, "feeEntries", 1, "bytes", 33), Thorough: b("actionShapes", 1, "fwdShapes", 0, "actions", 2, "feeEntries", 2, "bytes", 33), Covers: []string{"malformed-payload-refused", "payload-validated", "processed", "dispatcher-refused", "dispatched"}, TimeoutQuick: 300},
+				{Name: "H_C14_forwarding_shapes", Profile: "bit", Quick: b("actionShapes", 0, "fwdShapes", 1, "actions", 0, "feeEntries", 0, "bytes", 33), Covers: []string{"malformed-payload-refused", "payload-validated", "processed", "dispatcher-refused", "dispatched"}, TimeoutQuick: 300},
+				{Name: "H_C14_packet_envelope", Profile: "bit", Quick: b("envelope", 1, "fields", 0, "chanlen", 10, "segments", 0, "seglen", 0), Thorough: b("envelope", 1, "fields", 0, "chanlen", 12, "segments", 0, "seglen", 0), Covers: []string{"success-ack", "error-ack"}, TimeoutQuick: 300},
+				{Name: "H_C14_packet_fields", Profile: "bit", Quick: b("envelope", 0, "fields", 1, "chanlen", 0, "segments", 3, "seglen", 1), Thorough: b("envelope", 0, "fields", 1, "chanlen", 0, "segments", 4, "seglen", 2), Covers: []string{"success-ack", "error-ack"}, TimeoutQuick: 300},
 			}},
 		{ID: "C16", Assumptions: []string{aSummaries, aModels, "denominations are built from 1..segments '/'-free segments (the identifiers transfer / channel-7 / channel-8 / uusdc or arbitrary bytes of length 0..seglen), empty segments allowed; a denomination with more separators than that is outside the claim", "source port/channel: transfer/channel-7 or transfer/channel-8", "reference = the ICS-20 application's own derivation written with the same ibc-go helpers (ReceiverChainIsSource, GetDenomPrefix, ParseDenomTrace); channel identifier syntax is ibc-go's (summarised as a byte predicate)"},
 			Harnesses: []HarnessSpec{
